@@ -16,7 +16,7 @@ PROPERTY = 'C12'
 LEVEL = 'exploration'
 RULE = ('histories of 6..30 steps: suggest (batch 1..5, 1..3 workers), complete feasible/infeasible out of order, add '
         'completed trial, request trial, stop, delete trial (incl. the highest id), corrupt the persisted algorithm '
-        'state; routes: real service + PartiallySerializableDesignerPolicy (RAM / in-memory SQLite), real service + '
+        'state, a completion by another worker injected between two reads of a running request; routes: real service + PartiallySerializableDesignerPolicy (RAM / in-memory SQLite), real service + '
         'DesignerPolicy, policy kept alive over InRamPolicySupporter, real service on an SQLite file with server restarts in between. Non-trivial = history with >=2 update events and '
         '>=1 completed trial delivered; distinct = hash of (route, step-kind sequence).')
 ASSUMPTIONS = [
@@ -26,7 +26,8 @@ ASSUMPTIONS = [
     'ground truth is read from the datastore inside the same Designer.update() call',
 ]
 REQUIRED_COUNTERS = ['designer_state_corruptions', 'server_restarts', 'update_events', 'deliveries_ledgered', 'events_with_active', 'state_restorations',
-                     'state_losses', 'rebuilt_policy_events', 'inram_events', 'kept_alive_policy_events']
+                     'state_losses', 'rebuilt_policy_events', 'inram_events', 'kept_alive_policy_events',
+                     'racing_completions_between_reads', 'updates_with_concurrent_completion_checked']
 MIN_DISTINCT = {'quick': 150, 'thorough': 3000}
 ROUTES = ['svc-ps-ram', 'svc-ps-sqlmem', 'svc-dp-ram', 'inram-ps', 'svc-ps-sqlfile', 'svc-ps-ram', 'svc-keep-ram', 'svc-keep-sqlmem']
 
@@ -41,6 +42,45 @@ class Recorder:
     self.events = []
     self.truth = None
     self.instances = 0
+    # {'after': n, 'fire': callable}: after the n-th read (GetTrials) of the current
+    # request another worker's call is executed (on a second thread) before the
+    # algorithm's next read
+    self.race = None
+    self.race_log = []
+
+
+class RacingSupporter:
+  """The policy's supporter, with a yield point after every read: what another
+  worker does between two reads of one request (the service does not hold the
+  study lock while the algorithm runs)."""
+
+  def __init__(self, inner):
+    self._inner = inner
+    self._reads = 0
+
+  def __getattr__(self, name):
+    return getattr(self._inner, name)
+
+  def GetTrials(self, *a, **kw):  # pylint: disable=invalid-name
+    out = self._inner.GetTrials(*a, **kw)
+    self._reads += 1
+    race = REC.race
+    if race is not None and race.get('after') == self._reads and not race.get('fired'):
+      race['fired'] = True
+      import threading
+      res = {}
+
+      def body():
+        try:
+          res['out'] = race['fire']()
+        except Exception as e:  # pylint: disable=broad-except
+          res['exc'] = e
+      th = threading.Thread(target=body, daemon=True)
+      th.start()
+      th.join(20)
+      REC.race_log.append({'after': self._reads, 'blocked': th.is_alive(), 'out': str(res.get('out'))[:40],
+                           'exc': type(res['exc']).__name__ if 'exc' in res else None})
+    return out
 
 
 REC = Recorder()
@@ -111,7 +151,7 @@ def custom_policies():
   cls = designer_cls()
   return {
       'VVREC_PS': lambda problem, supporter, study_name: dp.PartiallySerializableDesignerPolicy(
-          problem, supporter, cls),
+          problem, RacingSupporter(supporter), cls),
       'VVREC_DP': lambda problem, supporter, study_name: dp.DesignerPolicy(
           supporter, lambda p, **kw: cls(p), use_seeding=False),
       # a policy factory that keeps one policy (and therefore the supporter of the
@@ -142,6 +182,11 @@ def gen_history(rng, route):
       steps.append({'k': 'suggest', 'count': rng.choice([1, 1, 2, 3, 5]), 'w': rng.choice(['w1', 'w2', 'w3'])})
     elif r < 0.62:
       steps.append({'k': 'complete', 'pick': rng.random(), 'infeasible': rng.random() < 0.2})
+      if rng.random() < 0.25:
+        # ... or the same completion arrives while another worker's suggest is inside the
+        # algorithm, between two of its reads
+        steps[-1] = {'k': 'suggest_race', 'count': rng.choice([1, 2, 3]), 'w': rng.choice(['w1', 'w2', 'w3']),
+                     'pick': steps[-1]['pick'], 'infeasible': steps[-1]['infeasible'], 'after': rng.choice([1, 1, 2])}
     elif r < 0.72:
       steps.append({'k': 'add_completed', 'v': round(rng.uniform(0, 1), 3)})
     elif r < 0.78:
@@ -162,6 +207,9 @@ def gen_history(rng, route):
       steps.insert(rng.randint(1, len(steps)), {'k': 'restart'})
   steps.append({'k': 'suggest', 'count': 1, 'w': 'w1'})
   steps.append({'k': 'suggest', 'count': 40, 'w': 'w2'})
+  if not (route.startswith('svc-ps')):
+    # the racing step needs the real service and the policy rebuilt per request
+    steps = [dict(s, k='complete') if s['k'] == 'suggest_race' else s for s in steps]
   if route == 'inram-ps':
     steps = [s for s in steps if s['k'] in ('suggest', 'complete', 'add_completed')]
   if route.startswith('svc-dp'):
@@ -181,12 +229,35 @@ class Ledger:
     self.ok = True
     self.n_delivered = 0
 
-  def on_event(self, ev, step_no):
+  def on_event(self, ev, step_no, concurrent=None):
     ctx = self.ctx
     ctx.count('update_events')
     truth = ev['truth']
     if truth is None:
       return
+    if concurrent is not None:
+      # A trial completed by another worker *while* this request was reading: either read may
+      # or may not have seen it (delivered now, still listed ACTIVE, or in neither list and
+      # delivered next time) - but one update never lists it as ACTIVE and as completed.
+      if concurrent in ev['active'] and concurrent in ev['completed']:
+        self.fail('trial-both-active-and-completed-in-one-update',
+                  f'step {step_no}: trial {concurrent}, completed by another worker between two reads of this '
+                  f'request, was handed over as ACTIVE and as completed in the same update '
+                  f'(active {sorted(ev["active"])}, completed {sorted(ev["completed"])})')
+      ctx.count('updates_with_concurrent_completion_checked')
+      delivered_now = concurrent in ev['completed']
+      ev = dict(ev, active=[i for i in ev['active'] if i != concurrent],
+                completed=[i for i in ev['completed'] if i != concurrent],
+                truth=[(i, s, ser) for (i, s, ser) in truth if i != concurrent])
+      ser = {i: sr for (i, _, sr) in truth}.get(concurrent)
+      if delivered_now and ser is not None:
+        if ser in self.delivered:
+          self.fail('completed-trial-delivered-twice', f'step {step_no}: trial {concurrent} delivered again')
+        self.delivered[ser] = concurrent
+        self.ever_delivered_ids.add(concurrent)
+        self.n_delivered += 1
+        ctx.count('deliveries_ledgered')
+      truth = ev['truth']
     fresh = (not ev['restored']) and ev['instance'] != self.last_instance
     if self.rebuilt:
       self.delivered = {}
@@ -303,6 +374,38 @@ def run_service(ctx, index, route, steps):
         if st['infeasible']:
           c = {'op': 'CompleteTrial', 'trial': f'{sname}/trials/{tid}', 'infeasible': True, 'reason': 'x'}
         S.call_servicer(servicer, c)
+    elif k == 'suggest_race':
+      # a suggest that needs the algorithm (large count), raced by the completion of an
+      # ACTIVE trial of some worker between two reads of the algorithm
+      pool = sorted(by_state.get('ACTIVE', []))
+      n_ev = len(REC.events)
+      racing = None
+      if pool:
+        racing = pool[int(st['pick'] * len(pool)) % len(pool)]
+        c = {'op': 'CompleteTrial', 'trial': f'{sname}/trials/{racing}', 'final': {'metrics': {'obj': 0.25}}}
+        if st['infeasible']:
+          c = {'op': 'CompleteTrial', 'trial': f'{sname}/trials/{racing}', 'infeasible': True, 'reason': 'x'}
+        sv_now = servicer
+        REC.race = {'after': st['after'], 'fire': (lambda c=c, sv_now=sv_now: S.call_servicer(sv_now, c)[0])}
+      REC.race_log = []
+      try:
+        ocls, oresp, _ = S.call_servicer(servicer, {'op': 'SuggestTrials', 'study': sname, 'count': st['count'] + 8,
+                                                   'client': st['w']})
+      finally:
+        fired = bool(REC.race and REC.race.get('fired'))
+        REC.race = None
+      if ocls != 'OK' or (isinstance(oresp, dict) and oresp.get('error')):
+        ctx.violation('suggest-failed', f'{route} step {step_no}: raced suggest -> {ocls} {str(oresp)[:200]}', case)
+        break
+      if fired and REC.race_log and REC.race_log[0]['blocked']:
+        ctx.count('racing_completions_blocked')
+      elif fired and REC.race_log and REC.race_log[0]['out'] == 'OK':
+        ctx.count('racing_completions_between_reads')
+        ctx.count(f'racing_completions_after_read_{st["after"]}')
+      else:
+        racing = None if not (fired and REC.race_log and REC.race_log[0]['out'] == 'OK') else racing
+      for ev in REC.events[n_ev:]:
+        ledger.on_event(ev, step_no, concurrent=racing)
     elif k == 'add_completed':
       S.call_servicer(servicer, {'op': 'CreateTrial', 'study': sname, 'params': {'x': 0.3, 'k': 3, 'c': 'a'},
                                  'state': 'SUCCEEDED', 'final': {'metrics': {'obj': st['v']}}})
